@@ -343,7 +343,11 @@ def payload_size(ctx, kind="bytes", maxchars=3):
             pl = P.JsonPayload({"k": text})
             import json as _json
 
-            data = _json.dumps({"k": text}).encode()
+            # (how the JSON text is spelled is the implementation's business: take its own rendering and
+            # only require that it says the same thing)
+            data = bytes(pl._value)
+            if _json.loads(data) != {"k": text}:
+                return False, "inv:payload-json", {"key": "json-payload-does-not-encode-the-object", "text": text}
         size = pl.size
         w = _RecWriter()
         use_plain_write = cl is None and ctx.flag("plain_write")
